@@ -62,6 +62,23 @@ def gen(rng, tier):
                 if kind != "legacy":
                     obj["accessList"] = []
                 cases.append(Case("tx.sign %s %s" % (hx(_json2.dumps(obj)), key()), tags=("payload-length-sweep", "kind:" + kind)))
+    # recipient forms for every kind: the emitted recipient is the 20 bytes given, or empty for an absent / null one — a text
+    # that is not an address (short, long, unprefixed, non-hex, empty, "0x") is refused, never turned into a creation
+    good_to = "0x" + "5a" * 20
+    for kind in ("legacy", "eip2930", "eip1559"):
+        for to in [good_to, good_to.upper().replace("0X", "0x"), None, "absent", "", "0x", "0X", "0x0", "0x" + "5a" * 19, "0x" + "5a" * 21, "5a" * 20, "0x" + "5a" * 19 + "5", "0x" + "5a" * 19 + "zz",
+                   "0x" + "5a" * 19 + "5 ", " " + good_to, good_to + " ", "0x" + "0" * 40, "0x" + "f" * 40, 0, 1, False, [], {}, [good_to], "null", "0x" + "5a" * 32, "0x" + "00" * 12 + "5a" * 20]:
+            obj = {"nonce": 1, "gas": 21000, "value": 0, "data": "0x", "chainId": 1}
+            if to != "absent":
+                obj["to"] = to
+            if kind == "eip1559":
+                obj["maxPriorityFeePerGas"] = 1
+                obj["maxFeePerGas"] = 2
+            else:
+                obj["gasPrice"] = 1
+            if kind != "legacy":
+                obj["accessList"] = []
+            cases.append(Case("tx.sign %s %s" % (hx(_json2.dumps(obj)), key()), tags=("recipient-forms", "kind:" + kind)))
     # the command-line route for every kind x the override flag x both output modes (the flag waives a refusal, nothing else)
     from vlib import bip39 as _b39
     mn_ = hx(" ".join(_b39.rand_phrase(rng, 12)))
